@@ -148,7 +148,7 @@ def probe_tables():
             serving.load(req, _cprequest.Response())
             try:
                 cherrypy.HTTPRedirect('/x', n).set_response()
-            except ValueError:
+            except Exception:     # noqa: BLE001 - whatever it raises, the model's outcome is "raises"
                 continue
             hr_known.append(n)
         nobody = []
@@ -157,7 +157,10 @@ def probe_tables():
             serving.load(req, r)
             r.status = n
             r.body = [b'x']
-            r.finalize()
+            try:
+                r.finalize()
+            except Exception as e:     # noqa: BLE001
+                raise common.HarnessError('Response.finalize fails for the valid status %d: %r' % (n, e))
             if b''.join(r.body) == b'':
                 nobody.append(n)
     finally:
